@@ -436,6 +436,9 @@ func (t *ValueSet) result(r Result) Result {
 	// any pointers. We know this to be true already since we analyzed the
 	// function earlier.
 	if !t.lifted() {
+		// Work on a copy of the slice: r.out may be the memoized result of
+		// a FuncOnce function, which must not be unwrapped in place.
+		r.out = append([]reflect.Value(nil), r.out...)
 		for i := uint8(0); i < t.structPointers; i++ {
 			r.out[0] = r.out[0].Elem()
 		}
